@@ -2,7 +2,7 @@
 from harness.props.ptrcommon import *
 PROP = "C10"
 COQ_FILES = ["Machine.v", "Ptr.v", "Ptr_proofs.v", "Bulk.v", "Bulk_proofs.v"]
-DRIVERS = drivers("BULK", ["memset", "memcpy", "memcmp", "vrange", "usp"])
+DRIVERS = drivers("BULK", ["memset", "memcpy", "memcmp", "vrange", "usp", "deny"])
 M64 = 1 << 64
 
 
@@ -62,6 +62,18 @@ def gen_cases(tier, rng):
                 for cnt in sorted(x for x in counts if 0 <= x < M64):
                     cases.append("vrange%s %d %s %d" % (cfg, p, elk, cnt))
                     cases.append("usp%s %d %s %d" % (cfg, p, elk, cnt))
+        # copy_memory_or_deny_access (copy path): element kinds it accepts x counts incl. those whose byte extent wraps
+        for p in starts:
+            base = A if p < Bb else Bb
+            to_end = base + size - p
+            for elk, es in (("char", 1), ("short", 2), ("float", 4), ("double", 8)):
+                counts = {0, 1, 2, 16, to_end // es - 1, to_end // es, to_end // es + 1, size // es + 1, 1 << 32,
+                          (1 << 62) + 2, (1 << 61) + 1, (1 << 63) + 1, M64 // es, M64 // es + 1, M64 // es + 2, M64 - 1}
+                for cnt in sorted(x for x in counts if 0 <= x < M64):
+                    n = cnt * es
+                    if n < M64 and p + n <= base + size and not observable(p, n, base):
+                        continue
+                    cases.append("deny%s %d %s %d" % (cfg, p, elk, cnt))
         for elk in ("char", "int"):
             for cnt in (0, 1, 5):
                 cases.append("vrange%s 0 %s %d" % (cfg, elk, cnt))
@@ -69,7 +81,14 @@ def gen_cases(tier, rng):
     return cases
 
 
-canon = canon
+_canon0 = canon
+
+
+def canon(case, r):
+    r = _canon0(case, r)
+    if case.startswith("deny") and r in ("ABORT", "OK null"):
+        return "REFUSED"
+    return r
 
 
 def NONTRIVIAL(case, model, cls):
